@@ -81,3 +81,6 @@ add("C05", "model_checking", "stateless deviation-bounded DFS over interleavings
 add("C32", "model_checking", "bounded-exhaustive write histories (scripted real SyncWAL loop) plus deviation-bounded DFS over writer/dispatcher interleavings, against a reference glob matcher",
     "sequential: all histories of <=3 writes over 4 buckets x 2 intervals with recording triggers on 4 patterns; concurrent: real SyncWAL loop + trigger dispatcher + two writers, ALL schedules with <=2 deviations (thorough 3); after the graceful shutdown drained the dispatcher the deliveries must equal: every acknowledged record once per matching trigger (component-wise, anchored), nothing else",
     SC, "schedmc")
+add("C26", "model_checking", "stateless deviation-bounded DFS over interleavings of the real replication Sender, stream handlers and disconnect points (environment choices)",
+    "real Sender.Run goroutine + committer + two real GetWALStream handlers on fake gRPC streams whose Send may fail at any explorer-chosen point; ALL schedules and disconnect points with <=2 deviations (thorough 3); no panic, no deadlock, in-order delivery, and a connected replica registered before commit i receives i, i+1, ...",
+    SC + "; gRPC transport replaced by a fake stream", "schedmc")
